@@ -318,6 +318,7 @@ type lexer struct {
 	width       int       // width of last rune read from input.
 	items       chan item // channel of scanned items.
 	doubleDelim bool      // flag for tags starting with double braces.
+	inTemplate  bool      // between {template} and {/template}: "/**" begins an ordinary comment there.
 	lastEmit    item      // type of most recent item emitted
 }
 
@@ -492,7 +493,9 @@ func lexText(l *lexer) stateFn {
 				}
 			case '*':
 				maybeEmitText(l, 2)
-				if l.next() == '*' {
+				// "/**" begins the soydoc of a template, except inside a template body
+				// and in "/**/": those are block comments.
+				if l.next() == '*' && !l.inTemplate && l.peek() != '/' {
 					return lexSoyDoc(l)
 				}
 				l.backup()
@@ -848,6 +851,10 @@ func lexIdent(l *lexer) stateFn {
 		l.emit(itemType)
 		// {literal} and {css} have unusual lexing rules
 		switch itemType {
+		case itemTemplate:
+			l.inTemplate = true
+		case itemTemplateEnd:
+			l.inTemplate = false
 		case itemLiteral:
 			return lexLiteral
 		case itemCss:
